@@ -17,3 +17,4 @@ Definition k_flow_read_asn1_object_identifier : pfun :=
     ];
     SReturn (PTuple [(PMeth "join" (PStr [46]) [(PComp (PCall "str" [(PName "i")]) ["i"] (PName "ids") [])]); (PName "consumed")])
   ] |}.
+Definition k_flow_read_asn1_object_identifier_defaults : list (string * pexp) := [("tag", PNone); ("header", PNone); ("hint", PNone)].
